@@ -10,6 +10,7 @@ comes from the regenerated fact table `Generated/Facts/SnapMut.lean`.
 -/
 import GluonModel.Lemmas.Explicable
 import GluonModel.Lemmas.Flush
+import GluonModel.Lemmas.ConvergeFlush
 import GluonModel.Generated.Facts.SnapMut
 
 namespace Gluon.C01
@@ -100,6 +101,37 @@ theorem flush_explicable_partial {m : Mirror} {snap : Snap} (hag : Agree m snap)
   refine ⟨out, m', ?_, hout, by rw [flush_snap]; exact hag'⟩
   unfold flush
   simp [hnoerr, hmerge]
+
+/-- **A whole flush, from the database's UID contract alone** — if the queued EXISTS carry strictly
+    ascending UIDs above every UID of the snapshot (`UidsAsc`: what `UIDNext` gives; it implies
+    `AllAtEnd` for whatever a flush pops and excludes every responder error), then outside CLOSE, with
+    no own-`.SILENT` responder popped, every flush (either `permitExpunge`) of every such queue does
+    not fail, does not panic in `Merge`, and what it sends leads the client's mirror to the snapshot
+    the server now answers from. -/
+theorem flush_explicable_of_uidsAsc {m : Mirror} {snap : Snap} (hag : Agree m snap) (hinv : Snap.Inv snap)
+    (permit : Bool) (sid : StateId) (res : List Responder) (huid : UidsAsc snap res)
+    (hsil : ∀ r ∈ (popResponders permit res).1, r.isSilent = false) :
+    ∃ out m', (flush permit false sid snap res).result = .ok out ∧ m.applyAll out = some m' ∧
+      Agree m' (flush permit false sid snap res).snap := by
+  have hsub : (popResponders permit res).1.Sublist res := by
+    cases permit
+    · exact popAux_fst_sublist [] [] res
+    · simp [popResponders]
+  have hpop := huid.sublist hsub
+  obtain ⟨s1, hs1, _⟩ := run_uidsOk hinv (hpop.uidsOk (sid := sid))
+  exact flush_explicable_partial hag hinv permit sid res (allAtEnd_of_uidsAsc hinv hpop) hsil
+    (flush_result_not_err hs1)
+
+/-- **…and the contract survives a held-back re-add** — after a `permitExpunge = false` flush the
+    snapshot it leaves and the queue it retains satisfy `UidsAsc` again: since the repair "while a
+    re-added message is held back, later EXISTS … are held back too" no later EXISTS overtakes a
+    held-back one, so the held-back message is still added at the end when its turn comes and
+    `flush_explicable_of_uidsAsc` applies to the next flush as well (no renumbering without
+    EXPUNGE). -/
+theorem flush_false_keeps_uidsAsc {sid : StateId} {snap : Snap} {res : List Responder} (hinv : Snap.Inv snap)
+    (huid : UidsAsc snap res) :
+    UidsAsc (flush false false sid snap res).snap (flush false false sid snap res).rem :=
+  flush_false_uidsAsc hinv huid
 
 /-- **CLOSE announces nothing and cannot panic** — in a CLOSE context EXPUNGE responses are
     suppressed, so any EXISTS/RECENT sent there could contradict what the client knows (a smaller
